@@ -64,13 +64,21 @@ pub enum Writer {
 
 /// Produce an archive with the CLI writer in `dir`. Returns archive bytes.
 pub fn compress_cli(dir: &Path, tag: &str, source: &[u8], cfg: &ArchCfg, stdin: bool, metadata: &[MetaArg], hook: Option<&l2::Hook>) -> Result<(Vec<u8>, l2::RunOut), String> {
+    compress_cli_over(dir, tag, source, cfg, stdin, metadata, hook, None)
+}
+
+/// `existing`: content already present at the archive path; the command is then run with --force-create.
+pub fn compress_cli_over(dir: &Path, tag: &str, source: &[u8], cfg: &ArchCfg, stdin: bool, metadata: &[MetaArg], hook: Option<&l2::Hook>, existing: Option<&[u8]>) -> Result<(Vec<u8>, l2::RunOut), String> {
     let src_name = format!("{}.src", tag);
     let arch_name = format!("{}.cba", tag);
     let _ = std::fs::remove_file(dir.join(&arch_name));
+    if let Some(e) = existing {
+        l2::write_file(&dir.join(&arch_name), e);
+    }
     if !stdin {
         l2::write_file(&dir.join(&src_name), source);
     }
-    let mut args = l2::compress_args(cfg, if stdin { None } else { Some(&src_name) }, &arch_name, false);
+    let mut args = l2::compress_args(cfg, if stdin { None } else { Some(&src_name) }, &arch_name, existing.is_some());
     // metadata options go before the positional output
     let out = args.pop().unwrap();
     for (i, m) in metadata.iter().enumerate() {
